@@ -21,7 +21,7 @@ pub const HUGE_CASE: u64 = 4_000_000_000;
 /// Runs the scenario on the shards `first..first+5` (one variant each) before the normal
 /// cases, or alone when replayed.  Returns true if the caller should skip its normal cases.
 pub fn maybe_run(ctx: &Ctx, rep: &mut Report, tag: &str, first_shard: u64) -> bool {
-    let mine = ctx.shard >= first_shard && ctx.shard < first_shard + 5;
+    let mine = ctx.shard >= first_shard && ctx.shard < first_shard + 6 && ctx.shard < 16;
     match ctx.only_case {
         Some(c) if c == HUGE_CASE => {
             if mine {
@@ -103,18 +103,23 @@ fn check_small(cf: &mut CompoundFile<SparseFile>, path: &str, want: &[u8], when:
 pub fn huge_scenario(ctx: &Ctx, rep: &mut Report, tag: &str, variant: u64) {
     const G4: u64 = 1 << 32;
     let mut rng = Rng::derive(ctx.seed, &[0x4816, variant]);
-    let big_len: u64 = match variant % 5 {
+    // variant 5: a version 3 file with a stream of 2 GiB and a little (MS-CFB recommends at
+    // most 2 GiB for version 3; the crate writes and reads more, using all 32 length bits)
+    let v3 = variant == 5;
+    let version = if v3 { Version::V3 } else { Version::V4 };
+    let big_len: u64 = match variant % 6 {
         0 => G4 + 100,
         1 => G4 - 1,
         2 => G4,
         3 => G4 + 128 * 1024 + 7,
-        _ => G4 + 8 * 1024 * 1024 + rng.below(5000),
+        4 => G4 + 8 * 1024 * 1024 + rng.below(5000),
+        _ => (1 << 31) + *rng.pick(&[0u64, 1, 100, 4095, 5000]),
     };
     let mut log: Vec<String> = Vec::new();
     let t0 = std::time::Instant::now();
     let res = guard::catch(|| -> Result<(), Fail> {
         let (file, shared): (SparseFile, SparseShared) = SparseFile::new();
-        let mut cf = CompoundFile::create_with_version(Version::V4, file).map_err(|e| (format!("{tag} | create failed"), format!("{e}")))?;
+        let mut cf = CompoundFile::create_with_version(version, file).map_err(|e| (format!("{tag} | create failed"), format!("{e}")))?;
         let small_a = payload(1, 100);
         let small_b = payload(2, 3000);
         let first = payload(3, 10_000);
@@ -243,4 +248,44 @@ pub fn huge_scenario(ctx: &Ctx, rep: &mut Report, tag: &str, variant: u64) {
         rep.sample(J::obj(vec![("scenario", J::s("v4 file beyond 4 GiB (sparse store): grow to N, probe head/tail/2^32 crossing, writes, other streams, reopen both modes, shrink, remove")), ("big_stream_len", J::Int(big_len as i128))]));
     }
     rep.nontrivial(0x4816_0000 ^ variant ^ big_len);
+}
+
+
+/// C10 on the one refusal that needs a huge stream: if growing a version 3 stream past
+/// 2 GiB is refused (InvalidInput / NotFound / AlreadyExists), the store must be as before.
+pub fn v3_limit_probe(ctx: &Ctx, rep: &mut Report) {
+    use std::io::ErrorKind;
+    let res = guard::catch(|| -> Result<(), Fail> {
+        let (file, shared): (SparseFile, SparseShared) = SparseFile::new();
+        let mut cf = CompoundFile::create_with_version(Version::V3, file).map_err(|e| ("harness: create failed".to_string(), format!("{e}")))?;
+        let mut s = cf.create_stream("/big").map_err(|e| ("harness: create_stream failed".to_string(), format!("{e}")))?;
+        s.write_all(&payload(1, 10_000)).and_then(|_| s.flush()).map_err(|e| ("harness: write failed".to_string(), format!("{e}")))?;
+        let snapshot = |sh: &SparseShared| {
+            let mut head = vec![0u8; 1 << 16];
+            sh.read_at(0, &mut head);
+            (sh.len(), sh.pages(), crate::rng::fnv64(&head))
+        };
+        for target in [(1u64 << 31) - 1, 1 << 31, (1 << 31) + 1000] {
+            let before = snapshot(&shared);
+            match s.set_len(target) {
+                Ok(()) => rep.count("huge.v3_set_len_accepted"),
+                Err(e) if [ErrorKind::InvalidInput, ErrorKind::NotFound, ErrorKind::AlreadyExists].contains(&e.kind()) => {
+                    let after = snapshot(&shared);
+                    if after != before {
+                        return Err(("refused set_len | bytes changed".to_string(), format!("version 3: set_len({target}) was refused with {:?} ({e}) but the store changed: (length, pages, digest of the first 64 KiB) {:?} -> {:?}", e.kind(), before, after)));
+                    }
+                    rep.count("huge.v3_set_len_refused_without_effect");
+                }
+                Err(_) => rep.count("huge.v3_set_len_other_error"),
+            }
+        }
+        Ok(())
+    });
+    let witness = ctx.witness(HUGE_CASE + 1, vec![("scenario", J::s("version 3 stream grown to 2 GiB - 1, 2 GiB, 2 GiB + 1000 on a sparse store"))]);
+    match res {
+        Ok(Ok(())) => rep.count("huge.v3_limit_probes"),
+        Ok(Err((sig, d))) => rep.finding(sig, d, witness),
+        Err(p) => rep.finding(p.signature(), format!("panic at {}:{}: {}", p.file, p.line, p.message), witness),
+    }
+    rep.evaluations += 1;
 }
